@@ -68,7 +68,8 @@ def cases(draw, tier="quick"):
     tree = draw(trees(budget=[draw(st.integers(4, 30 if tier == "quick" else 60))]))
     progs = []
     for _ in range(4):
-        b = draw(history_program(max_steps=6, max_elems=8))
+        # (the process-wide switch is flipped only by the tree's own nodes, never inside a program)
+        b = draw(history_program(max_steps=6, max_elems=8, allow_guard_off=False))
         progs.append(b.prog)
     return {"tree": tree, "progs": progs}
 
